@@ -107,8 +107,12 @@ run_prop() { # prop tier
   local prop=$1 tier=$2 bin=plain
   [ "$prop" = C18 ] && bin=race
   build_vsim $bin
+  local evidence="$VERIF/evidence/$prop.json"
+  # a run against another tree than /repo (a seeded change in a scratch
+  # worktree) must not overwrite the evidence of the real tree
+  [ "$REPO" = /repo ] || evidence="$BASE/vsim-evidence-other-tree-$prop.json"
   "$S/vsim-$bin" run -prop "$prop" -tier "$tier" -seed "$SEED" \
-     -evidence "$VERIF/evidence/$prop.json" -replays "$VERIF/replays" \
+     -evidence "$evidence" -replays "$VERIF/replays" \
      -findings "$VERIF/known_findings.json" -meta "$S/meta" ${VERIF_RUNS:+-runs $VERIF_RUNS} ${VERIF_CAP:+-cap $VERIF_CAP}
   return $?
 }
